@@ -117,10 +117,13 @@ CLAIMED = {
         note="Trusted: as C02; effects.py syntactic check; tolerances follow the solver's resolution (species to 1e-6+1e-10/x, scalars 1e-5, Cp and thermal conductivity 1e-4).",
         ref="§3-C04"),
     "C05": dict(
-        technique="Coq theorems of permutation invariance of every species sum + tested permutations of the species list on all outputs",
+        technique="Coq theorems: permutation invariance of every species sum, of the reference-energy chains (arg-max fold characterisation), equivariance of all regenerated transport blocks / assembled systems / final formulae + tested permutations of the species list on all outputs",
         text=("proof, partial: proved — density, element totals, the Stewart-Pyatt effective charge, the emission line sum and the atomic level sums are invariant "
-              "under permutation of the species (resp. level) list. NOT proved: equivariance of the reference-energy chains, of the converged solve and of the linear "
-              "transport solves; random permutations (incl. ion-before-parent orders) are compared on composition, species enthalpies and all scalar outputs."),
+              "under permutation of the species (resp. level) list; the reference-energy chains (model E0_of / E0_list, tied to the code by recorded iterations) attach the "
+              "same value to every species for every listing order when (stoichiometry, charge) pairs are distinct (arg-max fold characterisation, any chain length, "
+              "positive and negative ions); every regenerated transport block (all 13, straight from the generated text), both assembled linear systems with the code's right-hand sides, and every final "
+              "formula (viscosity, k', D_ij, D^T_i, electrical conductivity, the total thermal-conductivity assembly) are equivariant / invariant under re-listing: any solution "
+              "re-indexed solves the re-listed system. NOT proved: equivariance of the converged composition solve (as C04) and that numpy's solver returns the re-indexed solution in floats; random permutations (incl. ion-before-parent orders) are compared on composition, species enthalpies and all scalar outputs."),
         note="Trusted: as C02; tolerances as C04; electron-dependent conductivity compared above x_e=1e-7, emission when carried by resolved species.",
         ref="§3-C05"),
     "C10": dict(
@@ -128,7 +131,8 @@ CLAIMED = {
         text=("proof, partial (the weakest proof coverage of the set): proved — the internal energy of every species class (regenerated kernels; atomic level sums for any level list "
               "in any order) strictly increases with T at fixed lowering, hence the regenerated mixture-enthalpy kernel strictly increases with T at frozen composition, reference energies "
               "and lowerings (frozen heat capacity > 0); for the ideal mixture (entries not changing with P) G(N;P2) = G(N;P1) + kT ln(P2/P1) sum N and exact minimisers have sum N "
-              "non-increasing, mean molar mass non-decreasing in P (any species, any reactions); for {X, X+, e} mass action fixes c+ ce / c0 independently of P and the electron "
+              "non-increasing, mean molar mass non-decreasing in P (any species, any reactions); a point whose chemical potentials lie in the column space of the constraint matrix "
+              "(the solver's fixed-point condition, C01) IS such a minimiser (Gibbs' inequality), so the response holds for pairs of stationary points themselves; for {X, X+, e} mass action fixes c+ ce / c0 independently of P and the electron "
               "mole fraction strictly decreases with P. NOT proved: reactive heat capacity (composition moving with T), T-monotonicity of the mean molar mass, x_e(P) for general "
               "mixtures, anything with the Stewart-Pyatt lowering differing between the two states — validated on random temperature ladders (1000..25000 K, pairs down to 0.1 % apart) "
               "at several pressures and pressure ladders (1e4..1e6 Pa) at several temperatures for random shipped species subsets and x0."),
@@ -150,13 +154,17 @@ CLAIMED = {
               "formulae are C12/C14's subject."),
         ref="§3-C11"),
     "C12": dict(
-        technique="Coq theorems over R for any number of species: column sums of the first block row, the momentum constraint on every solution, sum D^T = 0, D_ii = 0, diffusion mass identity + tested split / scaling invariances",
+        technique="Coq theorems over R for any number of species: column sums of the first block row, the momentum constraint on every solution, sum D^T = 0, D_ii = 0, diffusion mass identity, degree-2 homogeneity of all blocks and density-scaling invariance of viscosity / translational conductivity + tested split invariance",
         text=("proof (conservation identities full given exact linear solves; two invariances tested): from the regenerated blocks q00..q03, for every nb, masses > 0 "
               "and symmetric collision integrals: columns of q01,q02,q03 sum to zero and those of q00 to -S n_j sqrt(m_j); hence every solution of the first block "
               "row carries -S sum_j n_j sqrt(m_j) x_0j = sum_i rhs_i; therefore the thermal-diffusion coefficients sum to zero, D_ii = 0 and "
-              "sum_i m_i (m_h D_ih - m_k D_ik) = 0 (with the model's right-hand sides and final formulae, tied to Dij / DTi by comparison). NOT proved: "
-              "invariance under splitting a neutral species and under common density scaling of neutral mixtures — tested on prescribed-integral mixtures "
-              "with random split fractions and scale factors, and the identities on equilibrium states of the shipped mixtures."),
+              "sum_i m_i (m_h D_ih - m_k D_ik) = 0 (with the model's right-hand sides and final formulae, tied to Dij / DTi by comparison); density scaling: every "
+              "regenerated block (all 13, q22 / q23 as they stand) is homogeneous of degree 2 in the densities at fixed collision integrals, so scaling all densities by c maps every "
+              "solution x of the viscosity and translational-conductivity systems to x / c and leaves viscosity and translational thermal conductivity unchanged; species splitting, viscosity: from the first-principles row form of the qhat blocks (C11), "
+              "every solution of the viscosity system yields a solution of the split system with the same viscosity (any species, any split fraction), and likewise for the "
+              "4nu x 4nu system and the translational thermal conductivity (row forms of all sixteen assembled blocks; q22 / q23 / q32 with whichever tables the code has). NOT proved: "
+              "split invariance of the reaction / thermal-diffusion parts of the thermal conductivity and of the electrical conductivity — tested on prescribed-integral mixtures with random split fractions (and all invariances again on the implementation), "
+              "and the identities on equilibrium states of the shipped mixtures."),
         note=("Trusted: Coq kernel; Reals axioms as printed; translator; Transport.v (block layout, right-hand sides, final formulae) hand-written and tied by "
               "comparing matrices and outputs under prescribed collision integrals; linear solves not modelled (theorems quantify over solutions)."),
         ref="§3-C12"),
@@ -176,7 +184,8 @@ CLAIMED = {
         text=("proof, partial: proved — the total emission coefficient (regenerated kernel) is strictly positive for positive densities as soon as one line is listed; for a "
               "single-component un-ionised gas the regenerated qhat blocks with the model's right-hand side and final formula give exactly the textbook second-order "
               "Chapman-Enskog viscosity built from the gas's own (2,2), (2,3), (2,4) integrals; the electrical conductivity is zero without charges and non-negative when no "
-              "species moves against its charge sign; the total thermal conductivity of a frozen composition is k' + sum hv D^T / T. REFUTED (kernel-checked witnesses, recorded as "
+              "species moves against its charge sign; the total thermal conductivity of a frozen composition is k' + sum hv D^T / T; for any mixture and any solution of the viscosity system the viscosity is a positive constant times the "
+              "quadratic form of the assembled qhat matrix at the solution (positivity of eta = positivity of that form). REFUTED (kernel-checked witnesses, recorded as "
               "known findings with the failing states in corpus/C14): positivity of the total thermal conductivity with thermal-diffusion terms, non-negativity of the "
               "conductivity with negative ions. NOT proved: positivity / finiteness of viscosity, thermal conductivity and heat capacity of general mixtures — validated over "
               "the operating window (T 1000..25000 K, P 1e4..1e6 Pa incl. corners, element shares 2..98 %) on shipped and synthetic species sets."),
